@@ -94,6 +94,28 @@ class _FacadeStub:
 _SHELL = []  # ONE long-lived shell per worker: a user captures one spa after the other in the same session
 
 
+def _resave(snap, tmp):
+    out = os.path.join(tmp, "resaved")
+    os.makedirs(out, exist_ok=True)
+    try:
+        snap.save(out)
+        again = GeckoSnapshot.parse_log_file(os.path.join(out, snap.filename))
+    except Exception as e:  # noqa
+        return f"saving the parsed snapshot and parsing the saved file raised {e!r}"
+    finally:
+        pass
+    if len(again) != 1:
+        shutil.rmtree(out, ignore_errors=True)
+        return f"the saved snapshot {snap.name!r} reads back as {len(again)} snapshots"
+    a = again[0]
+    shutil.rmtree(out, ignore_errors=True)
+    for label, g, e in (("bytes", a.bytes, snap.bytes), ("pack type", a.packtype, snap.packtype), ("config version", a.config_version, snap.config_version),
+                        ("log version", a.log_version, snap.log_version), ("intouch EN", a.intouch_EN, snap.intouch_EN), ("intouch CO", a.intouch_CO, snap.intouch_CO)):
+        if g != e:
+            return f"the saved snapshot reads back with another {label}"
+    return None
+
+
 def _shell_case(tmp, name, block, en, co, pack, packver, cfg, log):
     path = os.path.join(tmp, "snap.log")
     if not _SHELL:
@@ -117,6 +139,8 @@ def _shell_case(tmp, name, block, en, co, pack, packver, cfg, log):
                 d = [i for i in range(min(len(g), len(e))) if g[i] != e[i]][:4]
                 return f"bytes differ (lengths {len(g)}/{len(e)}, first differences at {d})"
             return f"{label} parsed as {g!r}, written {e!r}"
+    if name.replace(" ", "").isalnum():
+        return _resave(s, tmp)
     return None
 
 
@@ -202,6 +226,11 @@ def _traffic_handshake(segsize):
         if got != spa_blk:
             d = [i for i in range(min(len(got), 1024)) if got[i] != spa_blk[i]][:4]
             return ("bytes", f"segment size {segsize}: traffic log reassembles to {len(got)} bytes, differences at {d}")
+        # the simulator's `parse` command: the connection found in the log is saved as a snapshot file of its own, which
+        # is what gets loaded later - it has to read back as the same snapshot
+        why = _resave(snaps[0], tmp)
+        if why:
+            return ("resave", f"segment size {segsize}: {why}")
         return None
     finally:
         shutil.rmtree(tmp, ignore_errors=True)
